@@ -21,7 +21,7 @@ from fractions import Fraction
 import numpy as np
 
 PROP = 'C19'
-TARGETS = ['T12', 'T13a', 'T13c', 'T19a', 'T19b', 'T19s']
+TARGETS = ['T12', 'T13a', 'T13c', 'T19a', 'T19b', 'T19s', 'T19m']
 LEAN_MODULES = ['HdVerif.Props.C19']
 MODEL_MODULES = ['HdVerif.Model.PMap']
 NAMESPACE = 'HdVerif.C19'
@@ -557,6 +557,57 @@ def _pm_refusals(ctx, reqs=None, pending=None):
     ctx.exhaustive.append(f'{len(cases)} kinds of unsupported parametric map input (dtype, rank, mapping layout, positions, syntax)')
 
 
+# ------------------------------------------------------------------ RealWorldValueMapping itself
+def _mapping_cells(ctx, reqs, pending):
+    """constructor rules (exhaustive small grid, L0 ok-vs-error) and `apply` (oracle + model)"""
+    import itertools
+    from highdicom.pm import RealWorldValueMapping
+    from pydicom.sr.codedict import codes
+    k = 0
+    for n_lut, slope, icpt, vr in itertools.product([None, 0, 1, 3, 4, 5, 6], [None, 2.0], [None, -1.5],
+                                                   [(0, 3), (2, 5), (0, 0), (5, 2), (0.0, 1.0), (0, 2.5), (2.0, 5.0)]):
+        lut = None if n_lut is None else [float(i) for i in range(n_lut)]
+        st, m = _try(RealWorldValueMapping, 'l', 'e', codes.UCUM.NoUnits, vr, slope=slope, intercept=icpt, lut_data=lut)
+        is_float = any(isinstance(v, float) for v in vr)
+        reqs.append(('rwvmInit', {'lut': n_lut, 'slope': None if slope is None else 1, 'intercept': None if icpt is None else 1,
+                                  'isFloat': is_float, 'first': int(vr[0]), 'last': int(vr[1])}))
+        pending.append(({'kind': 'rwvm-init', 'lut': n_lut, 'slope': slope, 'intercept': icpt, 'range': list(vr)}, 'rwvm-init', st))
+        ctx.case(kind='rwvm-init', outcome=st)
+        # oracle: what was accepted is a LUT with one entry per value, or a linear mapping
+        if st == 'ok':
+            good = (m.has_lut() and n_lut == int(vr[1]) - int(vr[0]) + 1 and not is_float and slope is None and icpt is None) or \
+                (not m.has_lut() and slope is not None and icpt is not None and n_lut is None)
+            if not good:
+                ctx.fail({'kind': 'rwvm-init', 'lut': n_lut, 'slope': slope, 'intercept': icpt, 'range': list(vr)},
+                         'an inconsistent real-world value mapping was accepted', site='rwvm-init')
+        k += 1
+    ctx.exhaustive.append(f'RealWorldValueMapping constructor rules on {k} cells')
+    # apply()
+    for i in range(ctx.n(60, 1500)):
+        r = ctx.rng('apply', i)
+        _, desc = _mappings(r, r.choice(['uint8', 'uint16']), 1, nested=True)
+        m = desc[0][0]
+        lo, hi = int(m['first']), int(m['last'])
+        vals = [r.randint(max(0, lo - 2), min(65535, hi + 2)) for _ in range(r.randint(1, 6))]
+        if r.random() < 0.7:
+            vals = [min(max(v, lo), hi) for v in vals]
+        arr = np.array(vals, dtype=np.uint16).reshape(1, -1)
+        obj = RealWorldValueMapping(m['label'], 'e', codes.UCUM.NoUnits, (m['first'], m['last']),
+                                    **({'lut_data': m['lut']} if m['kind'] == 'lut' else {'slope': m['slope'], 'intercept': m['intercept']}))
+        st, out = _try(obj.apply, arr)
+        exp = _expected_real(arr, m)
+        case = {'kind': 'rwvm-apply', 'mapping': {k_: v for k_, v in m.items() if k_ != 'lut'}, 'values': vals}
+        ctx.case(kind='rwvm-apply', outcome=st, mapping=m['kind'])
+        if exp is None:
+            if st == 'ok':
+                ctx.fail(case, 'values outside the mapped range were mapped silently by RealWorldValueMapping.apply', site='rwvm-apply')
+        elif st != 'ok' or not np.array_equal(np.asarray(out, dtype=np.float64), exp):
+            ctx.fail(case, out if st != 'ok' else {'got': np.asarray(out).reshape(-1).tolist(), 'want': exp.reshape(-1).tolist()},
+                     site='rwvm-apply')
+        reqs.append(('applyMapping', dict(_map_json(m), values=vals)))
+        pending.append((case, 'rwvm-apply', [_rat(float(t)) for t in np.asarray(out, dtype=np.float64).reshape(-1)] if st == 'ok' else 'err'))
+
+
 # ------------------------------------------------------------------ secondary captures
 SC_DTYPES = ['bool', 'uint8', 'uint16', 'int16', 'float32', 'uint32', 'int8']
 SC_PIS = ['MONOCHROME1', 'MONOCHROME2', 'RGB', 'YBR_FULL', 'PALETTE COLOR', 'YBR_FULL_422']
@@ -817,6 +868,7 @@ def run(ctx):
     warnings.simplefilter('ignore')
     reqs, pending = [], []
     _pm_refusals(ctx, reqs, pending)
+    _mapping_cells(ctx, reqs, pending)
     for idx in range(ctx.n(60, 2500)):
         _check_pm(ctx, idx, reqs, pending)
     _sc_cells(ctx, reqs, pending)
@@ -831,6 +883,12 @@ def run(ctx):
             _compare_sc(ctx, case, impl, ans)
         elif what == 'sc-build':
             _compare_sc_build(ctx, case, impl, ans)
+        elif what == 'rwvm-init':
+            if 'proto_err' in ans or (impl == 'ok') != ('ok' in ans):
+                ctx.disagree('L0', case, impl, ans, 'RealWorldValueMapping constructor: ok-vs-error')
+        elif what == 'rwvm-apply':
+            if 'proto_err' in ans or (impl == 'err') != ('err' in ans) or (impl != 'err' and ans.get('ok') != impl):
+                ctx.disagree('L0', case, impl, ans, 'RealWorldValueMapping.apply')
 
 
 def _float_witness(ctx):
